@@ -80,9 +80,15 @@ Section XmrB58Proofs.
     apply bytes_ok_app; split; [apply bytes_ok_repeat0|exact Hb].
   Qed.
 
-  Lemma unpad_zeros k (b : list N) : unpad (repeat 0 k ++ b) (length b) = b.
+  Lemma lstrip_zeros_app k b : lstrip 0 (repeat 0 k ++ b) = lstrip 0 b.
+  Proof. induction k; simpl; [reflexivity|exact IHk]. Qed.
+
+  Lemma unpad_zeros k (b : list N) : unpad (repeat 0 k ++ b) (length b) = Ok b.
   Proof.
-    unfold unpad. rewrite app_length, repeat_length.
+    unfold unpad. rewrite lstrip_zeros_app.
+    pose proof (lead_count_length 0 b) as LL.
+    destruct (Nat.leb_spec (length (lstrip 0 b)) (length b)); [|lia]. unfold Ok. f_equal.
+    rewrite app_length, repeat_length.
     destruct (Nat.leb_spec (length b) (k + length b)); [|lia].
     replace (k + length b - length b)%nat with (length (repeat 0 k)) by (rewrite repeat_length; lia).
     rewrite skipn_app, Nat.sub_diag, skipn_all. reflexivity.
@@ -130,7 +136,7 @@ Section XmrB58Proofs.
         assert (P : (0 < length b)%nat) by (rewrite Eb; simpl; lia).
         pose proof (tab_pos _ P ltac:(lia)) as TP2.
         destruct (nonempty_of_length (rjust (enc_len (length b)) pad_sym (b58enc b)) ltac:(lia)) as (y & u & Ey).
-        rewrite Ey. rewrite <- Ey. rewrite block_dec by exact Hb. simpl. rewrite unpad_zeros. reflexivity.
+        rewrite Ey. rewrite <- Ey. rewrite block_dec by exact Hb. rewrite bind_ok. apply unpad_zeros.
     - assert (Hb1 : bytes_ok (firstn dec_max b)) by (apply bytes_ok_firstn; exact Hb).
       assert (L1 : length (firstn dec_max b) = dec_max) by (rewrite firstn_length; lia).
       assert (RL : length (rjust enc_max pad_sym (b58enc (firstn dec_max b))) = enc_max).
@@ -138,14 +144,15 @@ Section XmrB58Proofs.
       rewrite app_length, RL in *.
       destruct (Nat.ltb_spec (enc_max + length (enc_blocks f (skipn dec_max b))) enc_max); [lia|].
       rewrite <- RL at 1. rewrite firstn_app, Nat.sub_diag, firstn_all. simpl firstn. rewrite app_nil_r.
-      rewrite block_dec by exact Hb1. simpl.
-      rewrite <- RL at 2. rewrite skipn_app, Nat.sub_diag, skipn_all. simpl.
+      rewrite block_dec by exact Hb1. rewrite bind_ok.
+      pose proof (unpad_zeros (enc_max - length (b58enc (firstn dec_max b))) (firstn dec_max b)) as U.
+      rewrite L1 in U. rewrite U, bind_ok. clear U.
+      rewrite <- RL at 2. rewrite skipn_app, Nat.sub_diag, skipn_all. simpl skipn. rewrite app_nil_l.
       replace (length b mod dec_max)%nat with (length (skipn dec_max b) mod dec_max)%nat.
       2:{ rewrite skipn_length. replace (length b) with ((length b - dec_max) + 1 * dec_max)%nat at 2 by lia.
           rewrite Nat.mod_add by lia. reflexivity. }
       rewrite IH; [|apply bytes_ok_skipn; exact Hb|rewrite skipn_length; lia|lia].
-      simpl. pose proof (unpad_zeros (enc_max - length (b58enc (firstn dec_max b))) (firstn dec_max b)) as U.
-      rewrite L1 in U. rewrite U. unfold Ok. f_equal. apply firstn_skipn.
+      rewrite bind_ok. unfold Ok. f_equal. apply firstn_skipn.
   Qed.
 
   Theorem decode_encode b : bytes_ok b -> decode (encode b) = Ok b.
@@ -164,11 +171,14 @@ Section XmrB58Proofs.
   Proof.
     induction fd as [|fd IH]; intros s e H; simpl in H; [inversion H; auto|].
     destruct (length s <? enc_max)%nat.
-    - destruct s as [|c s]; [discriminate|]. destruct (b58dec (c :: s)) eqn:E; simpl in H; [discriminate|].
-      inversion H; subst. left. eapply Lemmas.Base58.decode_err; eauto.
-    - destruct (b58dec (firstn enc_max s)) eqn:E; simpl in H.
-      + destruct (dec_blocks fd ld (skipn enc_max s)) eqn:E2; simpl in H; [discriminate|].
-        inversion H; subst. eapply IH; eauto.
+    - destruct s as [|c s]; [discriminate|]. destruct (b58dec (c :: s)) eqn:E; cbn [bind] in H.
+      + unfold unpad in H. destruct (_ <=? _)%nat; inversion H; auto.
+      + inversion H; subst. left. eapply Lemmas.Base58.decode_err; eauto.
+    - destruct (b58dec (firstn enc_max s)) eqn:E; cbn [bind] in H.
+      + destruct (unpad l dec_max) eqn:EU; cbn [bind] in H.
+        * destruct (dec_blocks fd ld (skipn enc_max s)) eqn:E2; cbn [bind] in H; [discriminate|].
+          inversion H; subst. eapply IH; eauto.
+        * unfold unpad in EU. destruct (_ <=? _)%nat; inversion EU; inversion H; subst; auto.
       + inversion H; subst. left. eapply Lemmas.Base58.decode_err; eauto.
   Qed.
 
